@@ -3,6 +3,7 @@ correspondence of the hand-written Util model; search oracle: the property read 
 from lib import common
 from lib.common import hx, Corr
 
+EXTRA_PROPS = ["C13b"]   # group-level half: (r, n-s) verifies iff (r, s) does, on the ECDSA model
 RULE = ("per order n (17 curve orders + small and odd-sized orders): s in {1, 2, n//2-1, n//2, n//2+1, n//2+2, n-2, n-1}, "
         "the band n//2 +- 2^(bitlen-53)*{1,2,3} +- {0,1}, and random s; r in {1, n-1, random}; each of the 3 canonical "
         "encoders and 3 plain encoders; a case is distinct by its operation line; non-trivial = every case (all have 1<=s<n)")
